@@ -287,6 +287,13 @@ def fromRadixLe (w n : Nat) (buf : List Nat) (radix : Nat) : Outcome (Option (Li
 /-- `<BUint as FromStr>::from_str` -/
 def fromStr (w n : Nat) (src : List Nat) : Outcome PRes := fromStrRadix w n src 10
 
+/-- `BUint::parse_str_radix` (the `const` twin): the `Ok` payload, `panic!(e.description())` on `Err` -/
+def parseStrRadix (w n : Nat) (src : List Nat) (radix : Nat) : Outcome (List Nat) :=
+  match fromStrRadix w n src radix with
+  | .ok (.ok x) => .ok x
+  | .ok (.err _) => .panic
+  | .panic => .panic
+
 end UI
 
 /-! ### `BUint` printing API -/
@@ -437,6 +444,13 @@ def fromRadixLe (w n : Nat) (buf : List Nat) (radix : Nat) := UI.fromRadixLe w n
 
 /-- `<BInt as FromStr>::from_str` -/
 def fromStr (w n : Nat) (src : List Nat) : Outcome PRes := fromStrRadix w n src 10
+
+/-- `BInt::parse_str_radix` -/
+def parseStrRadix (w n : Nat) (src : List Nat) (radix : Nat) : Outcome (List Nat) :=
+  match fromStrRadix w n src radix with
+  | .ok (.ok x) => .ok x
+  | .ok (.err _) => .panic
+  | .panic => .panic
 
 /-- `BInt::to_radix_le` / `to_radix_be`: of `self.bits` -/
 def toRadixLe (w : Nat) (x : List Nat) (radix : Nat) := UI.toRadixLe w x radix
